@@ -13,14 +13,20 @@ Definition pkts (l : list msg) : list msg := filter m_pkt l.
     its insertion in the holding queue. *)
 Definition hand_p (s : state) : list msg :=
   match c_pc s with
-  | CC_L1 m | CC_L2 m | CC_A m | CC_T m | CC_Put m | CC_RelD m => [m]
+  | CC_L1 m | CC_L2 m | CC_A m | CC_T m | CC_Put m | CC_RelD m | CC_D m => [m]
   | _ => []
   end.
 
+(** The held packet unlock() has taken out of the holding queue and not dispatched yet. *)
+Definition hand_u (s : state) : list msg :=
+  match a_pc s with A_U4 m => [m] | _ => [] end.
+
 Definition a_holds (p : apc) : bool :=
-  match p with A_U2 | A_U3 | A_U5 | A_U6 => true | _ => false end.
+  match p with A_U2 | A_U3 | A_U4 _ | A_U5 | A_U6 => true | _ => false end.
 Definition c_holds (p : cpc) : bool :=
   match p with CC_T _ | CC_Put _ | CC_Rel | CC_RelD _ => true | _ => false end.
+Definition draining (p : apc) : bool :=
+  match p with A_U3 | A_U4 _ => true | _ => false end.
 
 (** lock() is not called on a connector that is already locked (it would discard what is
     held, by design). *)
@@ -38,7 +44,7 @@ Definition is_lock_op (o : op) : bool := match o with OLock | OUnlock => true | 
 Definition Ulock (s : state) : Prop :=
   match a_pc s with
   | A_L1 | A_L2 => hd_error (a_script s) = Some OLock /\ locked s = false /\ lock_wf true (tl (a_script s))
-  | A_U1 | A_U2 | A_U3 => hd_error (a_script s) = Some OUnlock /\ lock_wf false (tl (a_script s))
+  | A_U1 | A_U2 | A_U3 | A_U4 _ => hd_error (a_script s) = Some OUnlock /\ lock_wf false (tl (a_script s))
   | A_U6 => hd_error (a_script s) = Some OUnlock /\ lock_wf false (tl (a_script s)) /\ locked_q s = []
   | A_U5 => hd_error (a_script s) = Some OUnlock /\ lock_wf false (tl (a_script s)) /\ locked_q s = [] /\ locked s = false
   | A_Done => True
@@ -47,13 +53,15 @@ Definition Ulock (s : state) : Prop :=
   end.
 
 Record Inv_U (s : state) : Prop := mkInvU {
-  u_eq : dispatched s ++ locked_q s ++ hand_p s = pkts (delivered s);
+  u_eq : dispatched s ++ hand_u s ++ locked_q s ++ hand_p s = pkts (delivered s);
   u_empty : locked s = false -> locked_q s = [];
   u_put : forall m, c_pc s = CC_Put m -> locked s = true;
   u_reld : forall m, c_pc s = CC_RelD m -> locked_q s = [];
   u_lk : lk s = a_holds (a_pc s) || c_holds (c_pc s);
   u_excl : a_holds (a_pc s) && c_holds (c_pc s) = false;
-  u_lock : Ulock s
+  u_lock : Ulock s;
+  u_d : forall m, c_pc s = CC_D m -> locked_q s = [] /\ draining (a_pc s) = false;
+  u_drain : draining (a_pc s) = true -> locked s = true
 }.
 
 Lemma Inv_U_ext : forall s s',
@@ -62,7 +70,7 @@ Lemma Inv_U_ext : forall s s',
   a_script s' = a_script s -> Inv_U s -> Inv_U s'.
 Proof.
   intros s s' E1 E2 E3 E4 E5 E6 E7 E8 [].
-  constructor; unfold hand_p, Ulock in *; rewrite ?E1, ?E2, ?E3, ?E4, ?E5, ?E6, ?E7, ?E8; auto.
+  constructor; unfold hand_p, hand_u, Ulock in *; rewrite ?E1, ?E2, ?E3, ?E4, ?E5, ?E6, ?E7, ?E8; auto.
 Qed.
 
 Lemma pstep_frame_U : forall cfg p m s,
@@ -97,12 +105,13 @@ Proof. intros. apply filter_app. Qed.
 
 Ltac nodisc := try (intros; discriminate); auto.
 Ltac uem := first [assumption | (intro; congruence) | auto].
+Ltac udr Hdr := first [exact Hdr | (intros; assumption) | (let X := fresh in intro X; specialize (Hdr X); discriminate)].
 
 Lemma Inv_U_step_C : forall cfg s, legacy_unlock cfg = false -> Inv_U s -> Inv_U (step_C cfg s).
 Proof.
   intros cfg s Hl H. unfold step_C. destruct (has_conn cfg); cbn [negb]; auto.
   pose proof H as H0.
-  destruct H as [Heq Hem Hput Hreld Hlk Hex Hul].
+  destruct H as [Heq Hem Hput Hreld Hlk Hex Hul Hd Hdr].
   assert (Hul' : forall s', a_pc s' = a_pc s -> a_script s' = a_script s -> locked s' = locked s ->
                    locked_q s' = locked_q s -> Ulock s').
   { intros s' E1 E2 E3 E4. unfold Ulock in *. rewrite E1, E2, E3, E4. exact Hul. }
@@ -110,62 +119,70 @@ Proof.
   destruct (c_pc s) eqn:Ec; unfold hand_p in Heq; rewrite Ec in Heq; cbn [c_holds] in *.
   - (* Get *)
     destruct (events s); [exact H0|].
-    constructor; unfold hand_p; cbn; [exact Heq|uem|nodisc|nodisc|exact Hlk|exact Hex|apply Hul'; first [reflexivity|assumption]].
+    constructor; unfold hand_p; cbn; [exact Heq|uem|nodisc|nodisc|exact Hlk|exact Hex|apply Hul'; first [reflexivity|assumption]|nodisc|udr Hdr].
   - (* C2 *)
     destruct (sync_mode s =? 2);
-      (constructor; unfold hand_p; cbn; [exact Heq|uem|nodisc|nodisc|exact Hlk|exact Hex|apply Hul'; first [reflexivity|assumption]]).
+      (constructor; unfold hand_p; cbn; [exact Heq|uem|nodisc|nodisc|exact Hlk|exact Hex|apply Hul'; first [reflexivity|assumption]|nodisc|udr Hdr]).
   - (* C5 *)
     destruct (sync_mode s =? 1);
-      [constructor; unfold hand_p; cbn; [exact Heq|uem|nodisc|nodisc|exact Hlk|exact Hex|apply Hul'; first [reflexivity|assumption]]|].
+      [constructor; unfold hand_p; cbn; [exact Heq|uem|nodisc|nodisc|exact Hlk|exact Hex|apply Hul'; first [reflexivity|assumption]|nodisc|udr Hdr]|].
     destruct (m_pkt m) eqn:Ep;
-      (constructor; unfold hand_p; cbn; [|uem|nodisc|nodisc|exact Hlk|exact Hex|apply Hul'; first [reflexivity|assumption]]);
+      (constructor; unfold hand_p; cbn; [|uem|nodisc|nodisc|exact Hlk|exact Hex|apply Hul'; first [reflexivity|assumption]|nodisc|udr Hdr]);
       rewrite filter_app; cbn; rewrite Ep; rewrite <- Heq; rewrite ?app_nil_r, <- ?app_assoc; reflexivity.
   - (* S1 *)
     destruct (sync_mode s =? 2);
-      (constructor; unfold hand_p; cbn; [exact Heq|uem|nodisc|nodisc|exact Hlk|exact Hex|apply Hul'; first [reflexivity|assumption]]).
+      (constructor; unfold hand_p; cbn; [exact Heq|uem|nodisc|nodisc|exact Hlk|exact Hex|apply Hul'; first [reflexivity|assumption]|nodisc|udr Hdr]).
   - (* S2 *)
     destruct (1 <=? sync_mode s);
-      (constructor; unfold hand_p; cbn; [exact Heq|uem|nodisc|nodisc|exact Hlk|exact Hex|apply Hul'; first [reflexivity|assumption]]).
+      (constructor; unfold hand_p; cbn; [exact Heq|uem|nodisc|nodisc|exact Hlk|exact Hex|apply Hul'; first [reflexivity|assumption]|nodisc|udr Hdr]).
   - (* SPut *)
-    constructor; unfold hand_p; cbn; [exact Heq|uem|nodisc|nodisc|exact Hlk|exact Hex|apply Hul'; first [reflexivity|assumption]].
+    constructor; unfold hand_p; cbn; [exact Heq|uem|nodisc|nodisc|exact Hlk|exact Hex|apply Hul'; first [reflexivity|assumption]|nodisc|udr Hdr].
   - (* L1 *)
-    constructor; unfold hand_p; cbn; [exact Heq|uem|nodisc|nodisc|exact Hlk|exact Hex|apply Hul'; first [reflexivity|assumption]].
+    constructor; unfold hand_p; cbn; [exact Heq|uem|nodisc|nodisc|exact Hlk|exact Hex|apply Hul'; first [reflexivity|assumption]|nodisc|udr Hdr].
   - (* L2 *)
     destruct (locked s) eqn:El.
-    + constructor; unfold hand_p; cbn; [exact Heq|uem|nodisc|nodisc|exact Hlk|exact Hex|apply Hul'; first [reflexivity|assumption]].
-    + constructor; unfold hand_p; cbn; [|uem|nodisc|nodisc|exact Hlk|exact Hex|apply Hul'; first [reflexivity|assumption]].
-      rewrite (Hem eq_refl) in *. rewrite <- Heq. rewrite app_nil_r. reflexivity.
+    + constructor; unfold hand_p; cbn; [exact Heq|uem|nodisc|nodisc|exact Hlk|exact Hex|apply Hul'; first [reflexivity|assumption]|nodisc|udr Hdr].
+    + constructor; unfold hand_p; cbn; [exact Heq|uem|nodisc|nodisc|exact Hlk|exact Hex|apply Hul'; first [reflexivity|assumption]| |udr Hdr].
+      intros m0 _. split; [apply Hem; reflexivity|].
+      destruct (draining (a_pc s)) eqn:Edr; auto. specialize (Hdr eq_refl). discriminate.
   - (* A *)
     destruct (lk s) eqn:Elk; [exact H0|].
     rewrite Hl. rewrite orb_false_r in Hlk.
-    constructor; unfold hand_p; cbn; [exact Heq|uem|nodisc|nodisc| | |apply Hul'; first [reflexivity|assumption]].
+    constructor; unfold hand_p; cbn; [exact Heq|uem|nodisc|nodisc| | |apply Hul'; first [reflexivity|assumption]|nodisc|udr Hdr].
     + rewrite <- Hlk. reflexivity.
     + rewrite <- Hlk. reflexivity.
   - (* T *)
     destruct (locked s) eqn:El;
-      (constructor; unfold hand_p; cbn; [exact Heq|uem| | |exact Hlk|exact Hex|apply Hul'; first [reflexivity|assumption]]); nodisc.
+      (constructor; unfold hand_p; cbn; [exact Heq|uem| | |exact Hlk|exact Hex|apply Hul'; first [reflexivity|assumption]|nodisc|udr Hdr]); nodisc.
   - (* Put *)
     pose proof (Hput m eq_refl) as El. rewrite andb_true_r in Hex.
-    constructor; unfold hand_p; cbn; [|intro E; congruence|nodisc|nodisc|exact Hlk|rewrite andb_true_r; exact Hex|].
+    constructor; unfold hand_p; cbn; [|intro E; congruence|nodisc|nodisc|exact Hlk|rewrite andb_true_r; exact Hex| |nodisc|udr Hdr].
     + rewrite <- Heq. rewrite <- !app_assoc. reflexivity.
     + unfold Ulock in *. cbn. destruct (a_pc s); cbn in Hex; try discriminate; auto;
         try (destruct Hul as (? & ? & ?); congruence).
   - (* Rel *)
     rewrite andb_true_r in Hex. rewrite Hex in *.
-    constructor; unfold hand_p; cbn; [exact Heq|uem|nodisc|nodisc|rewrite Hex; reflexivity|rewrite andb_false_r; reflexivity|apply Hul'; first [reflexivity|assumption]].
-  - (* RelD *)
+    constructor; unfold hand_p; cbn; [exact Heq|uem|nodisc|nodisc|rewrite Hex; reflexivity|rewrite andb_false_r; reflexivity|apply Hul'; first [reflexivity|assumption]|nodisc|udr Hdr].
+  - (* RelD: release, the dispatch follows *)
     rewrite andb_true_r in Hex. rewrite Hex in *.
-    constructor; unfold hand_p; cbn; [|uem|nodisc|nodisc|rewrite Hex; reflexivity|rewrite andb_false_r; reflexivity|apply Hul'; first [reflexivity|assumption]].
-    rewrite (Hreld m eq_refl) in *. rewrite <- Heq. rewrite app_nil_r. reflexivity.
+    constructor; unfold hand_p; cbn; [exact Heq|uem|nodisc|nodisc|rewrite Hex; reflexivity|rewrite andb_false_r; reflexivity|apply Hul'; first [reflexivity|assumption]| |udr Hdr].
+    intros m0 _. split; [apply (Hreld m); reflexivity|].
+    destruct (a_pc s); cbn in Hex |- *; auto; discriminate.
+  - (* D: the packet is dispatched directly *)
+    destruct (Hd m eq_refl) as (Eq & Edr).
+    assert (Ehu : hand_u s = []) by (unfold hand_u; destruct (a_pc s); cbn in Edr; auto; discriminate).
+    constructor; unfold hand_p; cbn; [|uem|nodisc|nodisc|exact Hlk|exact Hex|apply Hul'; first [reflexivity|assumption]|nodisc|udr Hdr].
+    change (hand_u (set_c_pc CC_Get (set_dispatched (dispatched s ++ [m]) s))) with (hand_u s).
+    rewrite Ehu, Eq in *. cbn in *. rewrite <- Heq. rewrite <- !app_assoc. reflexivity.
 Qed.
 
 Definition other_pc (p : apc) : bool :=
   match p with
-  | A_L1 | A_L2 | A_U1 | A_U2 | A_U3 | A_U5 | A_U6 | A_Done => false
+  | A_L1 | A_L2 | A_U1 | A_U2 | A_U3 | A_U4 _ | A_U5 | A_U6 | A_Done => false
   | _ => true
   end.
 
-Lemma other_not_holds : forall p, other_pc p = true -> a_holds p = false.
+Lemma other_not_holds : forall p, other_pc p = true -> a_holds p = false /\ draining p = false.
 Proof. destruct p; cbn; auto; discriminate. Qed.
 
 Lemma Ulock_other : forall s, other_pc (a_pc s) = true ->
@@ -173,9 +190,14 @@ Lemma Ulock_other : forall s, other_pc (a_pc s) = true ->
                /\ match a_script s with o :: _ => is_lock_op o = false | [] => True end).
 Proof. intros s H. unfold Ulock. destruct (a_pc s); cbn in H; try discriminate; tauto. Qed.
 
-Lemma a_begin_holds : forall cfg sc, a_holds (a_begin cfg sc) = false.
+Lemma a_begin_holds : forall cfg sc, a_holds (a_begin cfg sc) = false /\ draining (a_begin cfg sc) = false.
 Proof.
   intros cfg [|[] ?]; cbn; auto; repeat match goal with |- context [if ?b then _ else _] => destruct b end; auto.
+Qed.
+
+Lemma hand_u_begin : forall cfg sc s, hand_u (set_a_pc (a_begin cfg sc) s) = [].
+Proof.
+  intros cfg [|[] ?] s; unfold hand_u; cbn; auto; repeat match goal with |- context [if ?b then _ else _] => destruct b end; auto.
 Qed.
 
 (** The application thread reaches the first yield point of its next operation. *)
@@ -193,6 +215,9 @@ Lemma lock_wf_tl : forall b sc,
   lock_wf b sc -> match sc with o :: _ => is_lock_op o = false | [] => True end -> lock_wf b (tl sc).
 Proof. intros b [|[] r]; cbn; auto; intros; try discriminate. Qed.
 
+Lemma hand_u_other : forall s, other_pc (a_pc s) = true -> hand_u s = [].
+Proof. intros s H. unfold hand_u. destruct (a_pc s); cbn in H; auto; discriminate. Qed.
+
 (** A step of the application thread outside lock()/unlock() that does not complete its operation. *)
 Lemma Inv_U_other : forall s s',
   dispatched s' = dispatched s -> locked_q s' = locked_q s -> c_pc s' = c_pc s ->
@@ -200,10 +225,14 @@ Lemma Inv_U_other : forall s s',
   other_pc (a_pc s) = true -> other_pc (a_pc s') = true -> Inv_U s -> Inv_U s'.
 Proof.
   intros s s' E1 E2 E3 E4 E5 E6 E8 O1 O2 [].
+  destruct (other_not_holds _ O1) as (A1 & D1). destruct (other_not_holds _ O2) as (A2 & D2).
   constructor; unfold hand_p in *; rewrite ?E1, ?E2, ?E3, ?E4, ?E5, ?E6; auto.
-  - rewrite (other_not_holds _ O2). rewrite (other_not_holds _ O1) in u_lk0. exact u_lk0.
-  - rewrite (other_not_holds _ O2). reflexivity.
+  - rewrite (hand_u_other _ O2). rewrite (hand_u_other _ O1) in u_eq0. exact u_eq0.
+  - rewrite A2. rewrite A1 in u_lk0. exact u_lk0.
+  - rewrite A2. reflexivity.
   - apply Ulock_other; auto. rewrite E5, E8. apply Ulock_other; auto.
+  - intros m E. destruct (u_d0 m E). split; auto.
+  - rewrite D2. discriminate.
 Qed.
 
 (** ... and one that completes it. *)
@@ -213,11 +242,16 @@ Lemma Inv_U_other_finish : forall cfg s s1,
   other_pc (a_pc s) = true -> Inv_U s -> Inv_U (a_finish cfg s1).
 Proof.
   intros cfg s s1 E1 E2 E3 E4 E5 E6 E8 O1 [].
+  destruct (other_not_holds _ O1) as (A1 & D1).
+  destruct (a_begin_holds cfg (tl (a_script s1))) as (A2 & D2).
   constructor; unfold hand_p, a_finish in *; cbn; rewrite ?E1, ?E2, ?E3, ?E4, ?E5, ?E6; auto.
-  - rewrite a_begin_holds. rewrite (other_not_holds _ O1) in u_lk0. exact u_lk0.
-  - rewrite a_begin_holds. reflexivity.
+  - rewrite hand_u_begin. rewrite (hand_u_other _ O1) in u_eq0. exact u_eq0.
+  - rewrite A2. rewrite A1 in u_lk0. exact u_lk0.
+  - rewrite A2. reflexivity.
   - apply (Ulock_finish cfg s1). rewrite E5, E8. apply Ulock_other in u_lock0; auto.
     destruct u_lock0. apply lock_wf_tl; auto.
+  - intros m E. destruct (u_d0 m E). split; auto.
+  - rewrite D2. discriminate.
 Qed.
 
 Ltac u_other s Epc H :=
@@ -252,53 +286,74 @@ Proof.
       (apply (Inv_U_other s); cbn; auto; try (rewrite Epc; reflexivity)).
   - (* V3 *) u_other s Epc H.
   - (* L1: the holding queue is cleared, then the flag is set *)
-    rewrite Hll. destruct H as [Heq Hem Hput Hreld Hlk Hex Hul].
+    rewrite Hll. destruct H as [Heq Hem Hput Hreld Hlk Hex Hul Hd Hdr].
     unfold Ulock in Hul. rewrite Epc in Hul. destruct Hul as (Hh & Hf & Hw).
-    pose proof (Hem Hf) as Eq. rewrite Epc in *.
-    constructor; unfold hand_p, Ulock in *; cbn; rewrite ?Epc;
-      [rewrite Eq in Heq; exact Heq | auto | exact Hput | auto | exact Hlk | exact Hex | auto].
+    pose proof (Hem Hf) as Eq. unfold hand_u in *. rewrite Epc in *.
+    constructor; unfold hand_p, hand_u, Ulock in *; cbn; rewrite ?Epc;
+      [rewrite Eq in Heq; exact Heq | auto | exact Hput | auto | exact Hlk | exact Hex | auto
+      | intros m E; destruct (Hd m E); auto | discriminate].
   - (* L2 *)
-    rewrite Hll. destruct H as [Heq Hem Hput Hreld Hlk Hex Hul].
-    unfold Ulock in Hul. rewrite Epc in Hul. destruct Hul as (Hh & Hf & Hw). rewrite Epc in *.
+    rewrite Hll. destruct H as [Heq Hem Hput Hreld Hlk Hex Hul Hd Hdr].
+    unfold Ulock in Hul. rewrite Epc in Hul. destruct Hul as (Hh & Hf & Hw). unfold hand_u in *. rewrite Epc in *.
+    destruct (a_begin_holds cfg (tl (a_script s))) as (A2 & D2).
     constructor; unfold hand_p, a_finish in *; cbn;
-      [exact Heq | intro; discriminate | auto | exact Hreld
-      | rewrite a_begin_holds; exact Hlk | rewrite a_begin_holds; reflexivity
-      | apply (Ulock_finish cfg (set_locked true s)); exact Hw].
+      [rewrite hand_u_begin; exact Heq | intro; discriminate | auto | exact Hreld
+      | rewrite A2; exact Hlk | rewrite A2; reflexivity
+      | apply (Ulock_finish cfg (set_locked true s)); exact Hw
+      | intros m E; destruct (Hd m E); auto | rewrite D2; discriminate].
   - (* U1 *)
-    destruct (lk s) eqn:Elk; auto. destruct H as [Heq Hem Hput Hreld Hlk Hex Hul].
-    unfold Ulock in Hul. rewrite Epc in *. cbn in Hlk. symmetry in Hlk.
-    constructor; unfold hand_p, Ulock in *; cbn; rewrite ?Epc;
-      [exact Heq | exact Hem | exact Hput | exact Hreld | reflexivity | rewrite Hlk; exact Elk | exact Hul].
+    destruct (lk s) eqn:Elk; auto. destruct H as [Heq Hem Hput Hreld Hlk Hex Hul Hd Hdr].
+    unfold Ulock in Hul. unfold hand_u in *. rewrite Epc in *. cbn in Hlk. symmetry in Hlk.
+    constructor; unfold hand_p, hand_u, Ulock in *; cbn; rewrite ?Epc;
+      [exact Heq | exact Hem | exact Hput | exact Hreld | reflexivity | rewrite Hlk; exact Elk | exact Hul
+      | intros m E; destruct (Hd m E); auto | discriminate].
   - (* U2 *)
-    rewrite Hlu. destruct H as [Heq Hem Hput Hreld Hlk Hex Hul]. rewrite Epc in *.
+    rewrite Hlu. destruct H as [Heq Hem Hput Hreld Hlk Hex Hul Hd Hdr]. unfold hand_u in *. rewrite Epc in *.
     unfold Ulock in Hul. rewrite Epc in Hul. destruct Hul as (Hh & Hw).
     destruct (locked_q s) eqn:Eq;
-      (constructor; unfold hand_p, Ulock in *; cbn; rewrite ?Epc, ?Eq;
-       [exact Heq | auto | exact Hput | auto | exact Hlk | exact Hex | auto]).
+      (constructor; unfold hand_p, hand_u, Ulock in *; cbn; rewrite ?Epc, ?Eq;
+       [exact Heq | auto | exact Hput | auto | exact Hlk | exact Hex | auto | | ]).
+    + intros m E; destruct (Hd m E); auto.
+    + discriminate.
+    + intros m0 E; destruct (Hd m0 E); discriminate.
+    + intros _. destruct (locked s) eqn:El; auto. specialize (Hem eq_refl). discriminate.
   - (* U3 *)
-    destruct H as [Heq Hem Hput Hreld Hlk Hex Hul].
+    destruct H as [Heq Hem Hput Hreld Hlk Hex Hul Hd Hdr].
     destruct (locked_q s) as [|m q] eqn:Eq; [constructor; rewrite ?Eq; auto|].
-    rewrite Epc in *. cbn in Hex. unfold pkts in *.
+    unfold hand_u in *. rewrite Epc in *. cbn in Hex. unfold pkts in *.
     unfold Ulock in Hul. rewrite Epc in Hul. destruct Hul as (Hh & Hw).
-    constructor; unfold hand_p, Ulock in *; cbn; rewrite ?Epc;
-      [ rewrite <- Heq; rewrite <- !app_assoc; reflexivity
+    constructor; unfold hand_p, hand_u, Ulock in *; cbn; rewrite ?Epc;
+      [ exact Heq
       | intro El; specialize (Hem El); discriminate
       | exact Hput
       | intros m0 E; rewrite E in Hex; discriminate
-      | exact Hlk | exact Hex | auto].
+      | exact Hlk | exact Hex | auto
+      | intros m0 E; destruct (Hd m0 E); discriminate
+      | intros _; apply Hdr; reflexivity ].
+  - (* U4: the held packet is dispatched *)
+    destruct H as [Heq Hem Hput Hreld Hlk Hex Hul Hd Hdr].
+    unfold hand_u in *. rewrite Epc in *. cbn in Hex. unfold pkts in *.
+    unfold Ulock in Hul. rewrite Epc in Hul. destruct Hul as (Hh & Hw).
+    constructor; unfold hand_p, hand_u, Ulock in *; cbn; rewrite ?Epc;
+      [ rewrite <- Heq; rewrite <- !app_assoc; reflexivity
+      | exact Hem | exact Hput | exact Hreld | exact Hlk | exact Hex | auto
+      | intros m0 E; destruct (Hd m0 E); discriminate
+      | discriminate ].
   - (* U5: release *)
-    rewrite Hlu. destruct H as [Heq Hem Hput Hreld Hlk Hex Hul].
-    unfold Ulock in Hul. rewrite Epc in *. cbn in Hex, Hlk. destruct Hul as (Hh & Hw & Eq & Hf).
+    rewrite Hlu. destruct H as [Heq Hem Hput Hreld Hlk Hex Hul Hd Hdr].
+    unfold Ulock in Hul. unfold hand_u in *. rewrite Epc in *. cbn in Hex, Hlk. destruct Hul as (Hh & Hw & Eq & Hf).
+    destruct (a_begin_holds cfg (tl (a_script s))) as (A2 & D2).
     constructor; unfold hand_p, a_finish in *; cbn;
-      [exact Heq | exact Hem | exact Hput | exact Hreld
-      | rewrite a_begin_holds, Hex; reflexivity | rewrite a_begin_holds; reflexivity
-      | apply (Ulock_finish cfg (set_lk false s)); cbn; rewrite Hf; exact Hw].
+      [rewrite hand_u_begin; exact Heq | exact Hem | exact Hput | exact Hreld
+      | rewrite A2, Hex; reflexivity | rewrite A2; reflexivity
+      | apply (Ulock_finish cfg (set_lk false s)); cbn; rewrite Hf; exact Hw
+      | intros m E; destruct (Hd m E); auto | rewrite D2; discriminate].
   - (* U6: the flag is cleared under the lock *)
-    rewrite Hlu. destruct H as [Heq Hem Hput Hreld Hlk Hex Hul].
-    unfold Ulock in Hul. rewrite Epc in *. cbn in Hex, Hlk. destruct Hul as (Hh & Hw & Eq).
-    constructor; unfold hand_p, Ulock in *; cbn; rewrite ?Epc;
+    rewrite Hlu. destruct H as [Heq Hem Hput Hreld Hlk Hex Hul Hd Hdr].
+    unfold Ulock in Hul. unfold hand_u in *. rewrite Epc in *. cbn in Hex, Hlk. destruct Hul as (Hh & Hw & Eq).
+    constructor; unfold hand_p, hand_u, Ulock in *; cbn; rewrite ?Epc;
       [exact Heq | auto | intros m0 E; rewrite E in Hex; discriminate | exact Hreld
-      | exact Hlk | exact Hex | auto].
+      | exact Hlk | exact Hex | auto | intros m E; destruct (Hd m E); auto | discriminate].
   - (* E1 *) split_match; u_other s Epc H.
   - (* E2 *) split_match; first [u_other s Epc H | u_fin cfg s Epc H].
   - (* E3 *) split_match; first [u_other s Epc H | u_fin cfg s Epc H].
@@ -325,21 +380,25 @@ Proof.
   { change (init cfg script sp l0) with
       (a_finish cfg (set_a_script (OWait None :: script) (init cfg script sp l0))).
     apply Ulock_finish. exact Hw. }
-  constructor; unfold hand_p, init in *; cbn; auto; try (intros; discriminate).
-  - rewrite a_begin_holds. reflexivity.
-  - rewrite a_begin_holds. reflexivity.
+  destruct (a_begin_holds cfg script) as (A2 & D2).
+  assert (Hh : hand_u (init cfg script sp l0) = []) by exact (hand_u_begin cfg script (init cfg script sp l0)).
+  constructor; try exact Hu; unfold hand_p; rewrite ?Hh; unfold init in *; cbn; auto; try (intros; discriminate).
+  - rewrite A2. reflexivity.
+  - rewrite A2. reflexivity.
+  - rewrite D2. discriminate.
 Qed.
 
 (** unlock_exactly_once_in_order (repaired lock()/unlock()/add_locked_pdu()): at every
     reachable state, under every schedule, the packets dispatched so far (by the I/O thread
-    directly or by unlock()), followed by the packets held, followed by the packet in the
-    I/O thread's hands, are exactly the packets that reached process_message, in arrival
-    order; and the holding queue of an unlocked connector is empty (nothing stranded). *)
+    directly or by unlock()), followed by the held packet unlock() is about to dispatch, the
+    packets held, and the packet in the I/O thread's hands, are exactly the packets that
+    reached process_message, in arrival order; and the holding queue of an unlocked
+    connector is empty (nothing stranded). *)
 Lemma unlock_exactly_once_in_order :
   forall cfg script sp l0 sched,
     legacy_unlock cfg = false -> legacy_lock cfg = false -> lock_wf l0 script ->
     let s := run cfg sched (init cfg script sp l0) in
-    dispatched s ++ locked_q s ++ hand_p s = pkts (delivered s)
+    dispatched s ++ hand_u s ++ locked_q s ++ hand_p s = pkts (delivered s)
     /\ (locked s = false -> locked_q s = []).
 Proof.
   intros cfg script sp l0 sched H1 H2 Hw s.
@@ -352,11 +411,11 @@ Lemma unlock_at_quiescence :
   forall cfg script sp l0 sched,
     legacy_unlock cfg = false -> legacy_lock cfg = false -> lock_wf l0 script ->
     let s := run cfg sched (init cfg script sp l0) in
-    locked s = false -> hand_p s = [] -> dispatched s = pkts (delivered s).
+    locked s = false -> hand_p s = [] -> hand_u s = [] -> dispatched s = pkts (delivered s).
 Proof.
-  intros cfg script sp l0 sched H1 H2 Hw s Hl Hh.
+  intros cfg script sp l0 sched H1 H2 Hw s Hl Hh Hu.
   destruct (unlock_exactly_once_in_order cfg script sp l0 sched H1 H2 Hw) as (E & Q).
-  fold s in E, Q. rewrite (Q Hl), Hh in E. rewrite !app_nil_r in E. exact E.
+  fold s in E, Q. rewrite (Q Hl), Hh, Hu in E. rewrite !app_nil_r in E. exact E.
 Qed.
 
 (** The code as found: process_message tests is_locked() and then enqueues, unlock()
@@ -421,7 +480,7 @@ Definition pipeS (s : state) : list msg :=
   ++ hand_r s ++ msgs_of (r_buf s) ++ msgs_of (concat (wire s)).
 
 Definition is_wait (o : op) : Prop := match o with OWait _ => True | _ => False end.
-Definition pkt_chunk (c : chunk) : Prop := Forall (fun m => m_pkt m = true) (msgs_of c).
+Definition pkt_chunk (c : chunk) : Prop := Forall (fun m => m_pkt m && m_conv m = true) (msgs_of c).
 
 Definition sp_ok (p : ppc) : bool :=
   match p with P1 | P5 | P8l | P8a | P8b => true | _ => false end.
@@ -431,7 +490,7 @@ Definition k_pc (p : apc) : bool :=
 
 Record Inv_S (s : state) : Prop := mkInvS {
   s_eq : pipeS s = emitted s;
-  s_pk : Forall (fun m => m_pkt m = true) (emitted s);
+  s_pk : Forall (fun m => m_pkt m && m_conv m = true) (emitted s);
   s_sp : Forall pkt_chunk (spont s);
   s_filt : filt s = None;
   s_inq : in_q s = [] /\ exists dl, w_pc s = WR_Get dl;
@@ -556,6 +615,7 @@ Proof.
   - (* Put *) s_case Heq H0.
   - (* Rel *) s_case Heq H0.
   - (* RelD *) s_case Heq H0.
+  - (* D *) s_case Heq H0.
 Qed.
 
 Lemma a_begin_waits : forall cfg ws, Forall is_wait ws -> k_pc (a_begin cfg ws) = true.
@@ -609,7 +669,7 @@ Proof.
         unfold pipeS, hand_c, hand_r, gotten in *. cbn. rewrite flat_map_app. cbn. rewrite app_nil_r. rewrite Eq in Heq. rewrite Eq. exact Heq.
       * constructor; cbn; auto; try (intros E'; rewrite E in E'; discriminate).
     + (* a packet is retrieved *)
-      assert (Hp : m_pkt m = true).
+      assert (Hp : m_pkt m && m_conv m = true).
       { assert (Hin : In m (emitted s)) by (rewrite <- Heq; apply pipeS_In_sync; rewrite Eq; left; auto).
         rewrite Forall_forall in Hpk. auto. }
       rewrite Hp. unfold a_finish. constructor; cbn; auto; try (intros E'; rewrite E in E'; discriminate);
@@ -699,32 +759,35 @@ Proof. intros. rewrite filter_app. apply cnt_app. Qed.
 
 Global Opaque cnt.
 
-Definition bhand_c (s : bstate) : list msg :=
-  match b_cpc s with
-  | CC_C2 m | CC_C5 m | CC_L1 m | CC_L2 m | CC_A m | CC_T m | CC_Put m | CC_RelD m => [m]
+Definition shand_c (s : side) : list msg :=
+  match d_cpc s with
+  | CC_C2 m | CC_C5 m | CC_L1 m | CC_L2 m | CC_A m | CC_T m | CC_Put m | CC_RelD m | CC_D m => [m]
   | _ => []
   end.
-Definition bhand_x (s : bstate) : list msg :=
-  match b_xpc s with X_C2 m | X_C5 m | X_R1 m | X_R2 m => [m] | _ => [] end.
-Definition bhand_a (s : bstate) : list msg :=
-  match b_apc s with BU_R1 m | BU_R2 m => [m] | _ => [] end.
-Definition bhand_r (s : bstate) : list msg :=
-  match b_rpc s with BR_P _ m => [m] | _ => [] end.
+Definition shand_x (s : side) : list msg :=
+  match d_xpc s with X_C2 m | X_C5 m | X_R1 m | X_R2 m => [m] | _ => [] end.
+Definition shand_r (s : side) : list msg :=
+  match d_rpc s with BR_P _ m => [m] | _ => [] end.
+Definition dir_eqb (a b : dir) : bool :=
+  match a, b with DIn, DIn | DOut, DOut => true | _, _ => false end.
+Definition ahand (d : dir) (p : bapc) : list msg :=
+  match p with BU_R1 d' m | BU_R2 d' m => if dir_eqb d d' then [m] else [] | _ => [] end.
 
-(** Every message of the scenario, wherever it currently is. *)
-Definition ball (s : bstate) : list msg :=
-  b_peer s ++ b_lost s ++ filter (fun m => negb (m_pkt m)) (b_deliv_o s) ++ b_lq s
-  ++ bhand_c s ++ bhand_x s ++ bhand_a s ++ b_ev_o s ++ b_ev_w s ++ b_outq s
-  ++ bhand_r s ++ msgs_of (b_rbuf s) ++ msgs_of (concat (b_wire s)) ++ msgs_of (concat (b_spont s)).
+(** Every message of one side of the scenario, wherever it currently is. *)
+Definition sbody (s : side) : list msg :=
+  d_peer s ++ d_lost s ++ filter (fun m => negb (m_pkt m)) (d_deliv_o s) ++ d_lq s
+  ++ shand_c s ++ shand_x s ++ d_ev_o s ++ d_ev_w s ++ d_outq s
+  ++ shand_r s ++ msgs_of (d_rbuf s) ++ msgs_of (concat (d_wire s)) ++ msgs_of (concat (d_spont s)).
 
-Record Inv_B (s : bstate) : Prop := mkInvB {
-  ib_filt : b_filt s = None;
-  ib_ready : b_conn s = true -> b_wready s = true;
-  ib_alive : b_rpc s <> BR_Dead;
-  ib_q : forall p m, b_rpc s = BR_P p m ->
-           p <> Q6 /\ p <> Q7 /\ (p = Q8b true -> b_wready s = true);
-  ib_rbuf : b_rpc s = BR_Read -> b_rbuf s = [];
-  ib_w1 : match b_apc s with BA_F1 | BA_F2 | BA_W1b | BA_W1c => True | _ => b_wready s = true end
+Definition ball (d : dir) (s : bstate) : list msg := sbody (bside d s) ++ ahand d (b_apc s).
+
+Record SInv (s : side) : Prop := mkSInv {
+  ib_filt : d_filt s = None;
+  ib_ready : d_conn s = true -> d_wready s = true;
+  ib_alive : d_rpc s <> BR_Dead;
+  ib_q : forall p m, d_rpc s = BR_P p m ->
+           p <> Q6 /\ p <> Q7 /\ (p = Q8b true -> d_wready s = true);
+  ib_rbuf : d_rpc s = BR_Read -> d_rbuf s = []
 }.
 
 Lemma br_next_spec : forall buf,
@@ -736,7 +799,7 @@ Lemma br_next_spec : forall buf,
 Proof. induction buf as [|[m|] b IH]; cbn; auto. Qed.
 
 Ltac c_tac :=
-  unfold ball, bhand_c, bhand_x, bhand_a, bhand_r; cbn;
+  unfold ball, sbody, shand_c, shand_x, shand_r; cbn;
   rewrite ?concat_app, ?msgs_of_app, ?cnt_app, ?cnt_filter_app; cbn [concat msgs_of filter app];
   rewrite ?cnt_app, ?cnt_nil;
   repeat match goal with
@@ -745,129 +808,196 @@ Ltac c_tac :=
          end;
   rewrite ?cnt_app, ?cnt_nil; try lia.
 
-Lemma bstep_conserves : forall cfg a s x,
-  legacy_ctor cfg = false -> Inv_B s ->
-  Inv_B (bact cfg a s) /\ cnt x (ball (bact cfg a s)) = cnt x (ball s).
+Lemma sstep_R_conserves : forall s x, SInv s ->
+  SInv (sstep_R s) /\ cnt x (sbody (sstep_R s)) = cnt x (sbody s)
+  /\ d_wready (sstep_R s) = d_wready s /\ d_conn (sstep_R s) = d_conn s.
 Proof.
-  intros cfg a s x Hl HI. pose proof HI as [Hf Hr Hal Hq Hrb Hw1]. destruct a; cbn [bact].
-  - (* application thread *)
-    unfold bstep_A. rewrite Hl.
-    destruct (b_apc s) eqn:Ea; split_match;
-      (split; [constructor; cbn; auto; try (intros; discriminate); try (rewrite ?Ea in Hw1; exact Hw1); try (rewrite Ea; exact Hw1);
-               try (intros p0 m0 E0; destruct (Hq _ _ E0) as (? & ? & ?); repeat split; auto; fail)
-              | c_tac; rewrite ?Ea, ?Heql; c_tac]).
-  - (* reader *)
-    unfold bstep_R. destruct (b_rpc s) as [|p m|] eqn:Er; [| |contradiction].
-    + destruct (b_wire s) as [|c w] eqn:Ew; [split; [exact HI|reflexivity]|].
-      pose proof (br_next_spec c) as Hn. pose proof (Hrb eq_refl) as Eb.
-      split.
-      * constructor; cbn; auto.
-        -- destruct (fst (br_next c)); try discriminate; contradiction.
-        -- intros p m E. destruct (fst (br_next c)); try discriminate; try contradiction.
-           destruct Hn as (E1 & _). inversion E; subst. repeat split; discriminate.
-        -- intro E. destruct (fst (br_next c)); try discriminate; try contradiction. destruct Hn; auto.
-      * c_tac. rewrite Er, Ew, Eb. c_tac.
-        destruct (fst (br_next c)); try contradiction; destruct Hn as (E1 & E2); rewrite ?E1, ?E2; c_tac.
-    + destruct (Hq _ _ eq_refl) as (H6 & H7 & H8).
-      pose proof (br_next_spec (b_rbuf s)) as Hn.
-      destruct p; try congruence; rewrite ?Hf.
-      * (* Q1 *) split; [constructor; cbn; auto; try discriminate; intros p m0 E; inversion E; subst; repeat split; discriminate|].
-        c_tac; rewrite ?Er; c_tac.
-      * (* Q5 *) split; [constructor; cbn; auto; try discriminate; intros p m0 E; inversion E; subst; repeat split; discriminate|].
-        c_tac; rewrite ?Er; c_tac.
-      * (* Q8l *) split; [constructor; cbn; auto; try discriminate; intros p m0 E; inversion E; subst; repeat split; discriminate|].
-        c_tac; rewrite ?Er; c_tac.
-      * (* Q8a *) split; [constructor; cbn; auto; try discriminate; intros p m0 E; inversion E; subst; repeat split; try discriminate|].
-        -- intro E'. inversion E' as [E'']. rewrite E''. apply Hr; auto.
-        -- c_tac; rewrite ?Er; c_tac.
-      * (* Q8b *)
-        destruct to_wrapper.
-        -- rewrite (H8 eq_refl). split.
-           ++ constructor; cbn; auto.
-              ** destruct (fst (br_next (b_rbuf s))); try discriminate; contradiction.
-              ** intros p m0 E. destruct (fst (br_next (b_rbuf s))); try discriminate; try contradiction.
-                 destruct Hn as (E1 & _). inversion E; subst. repeat split; discriminate.
-              ** intro E. destruct (fst (br_next (b_rbuf s))); try discriminate; try contradiction. destruct Hn; auto.
-           ++ c_tac. rewrite Er. c_tac.
-              destruct (fst (br_next (b_rbuf s))); try contradiction; destruct Hn as (E1 & E2); rewrite ?E1, ?E2; c_tac.
-        -- split.
-           ++ constructor; cbn; auto.
-              ** destruct (fst (br_next (b_rbuf s))); try discriminate; contradiction.
-              ** intros p m0 E. destruct (fst (br_next (b_rbuf s))); try discriminate; try contradiction.
-                 destruct Hn as (E1 & _). inversion E; subst. repeat split; discriminate.
-              ** intro E. destruct (fst (br_next (b_rbuf s))); try discriminate; try contradiction. destruct Hn; auto.
-           ++ c_tac. rewrite Er. c_tac.
-              destruct (fst (br_next (b_rbuf s))); try contradiction; destruct Hn as (E1 & E2); rewrite ?E1, ?E2; c_tac.
-  - (* old connector I/O thread *)
-    unfold bstep_C.
-    destruct (b_cpc s) eqn:Ec; split_match;
-      (split; [constructor; cbn; auto | c_tac; rewrite ?Ec, ?Heql, ?Heqb; c_tac]).
-  - (* wrapper I/O thread *)
-    unfold bstep_X.
-    destruct (b_xpc s) eqn:Ex; split_match;
-      (split; [constructor; cbn; auto | c_tac; rewrite ?Ex, ?Heql, ?Heqb; c_tac]).
-  - (* the device emits *)
-    unfold bemit. destruct (b_spont s) as [|c r] eqn:Es; [split; [exact HI|reflexivity]|].
-    split; [constructor; cbn; auto|]. c_tac. rewrite Es. c_tac.
-  - split; [exact HI|reflexivity].
+  intros s x HI. pose proof HI as [Hf Hr Hal Hq Hrb].
+  unfold sstep_R. destruct (d_rpc s) as [|p m|] eqn:Er; [| |contradiction].
+  - destruct (d_wire s) as [|c w] eqn:Ew; [split; [exact HI|repeat split; reflexivity]|].
+    pose proof (br_next_spec c) as Hn. pose proof (Hrb eq_refl) as Eb.
+    split; [|split; [|split; reflexivity]].
+    + constructor; cbn; auto.
+      * destruct (fst (br_next c)); try discriminate; contradiction.
+      * intros p m E. destruct (fst (br_next c)); try discriminate; try contradiction.
+        destruct Hn as (E1 & _). inversion E; subst. repeat split; discriminate.
+      * intro E. destruct (fst (br_next c)); try discriminate; try contradiction. destruct Hn; auto.
+    + c_tac. rewrite Er, Ew, Eb. c_tac.
+      destruct (fst (br_next c)); try contradiction; destruct Hn as (E1 & E2); rewrite ?E1, ?E2; c_tac.
+  - destruct (Hq _ _ eq_refl) as (H6 & H7 & H8).
+    pose proof (br_next_spec (d_rbuf s)) as Hn.
+    destruct p; try congruence; rewrite ?Hf.
+    + split; [constructor; cbn; auto; try discriminate; intros p m0 E; inversion E; subst; repeat split; discriminate|].
+      split; [c_tac; rewrite ?Er; c_tac|split; reflexivity].
+    + split; [constructor; cbn; auto; try discriminate; intros p m0 E; inversion E; subst; repeat split; discriminate|].
+      split; [c_tac; rewrite ?Er; c_tac|split; reflexivity].
+    + split; [constructor; cbn; auto; try discriminate; intros p m0 E; inversion E; subst; repeat split; discriminate|].
+      split; [c_tac; rewrite ?Er; c_tac|split; reflexivity].
+    + split; [constructor; cbn; auto; try discriminate; intros p m0 E; inversion E; subst; repeat split; try discriminate|].
+      * intro E'. inversion E' as [E'']. rewrite E''. apply Hr; auto.
+      * split; [c_tac; rewrite ?Er; c_tac|split; reflexivity].
+    + destruct to_wrapper.
+      * pose proof (H8 eq_refl) as Hw. rewrite Hw. split; [|split; [|split; cbn; auto]].
+        -- constructor; cbn; auto.
+           ++ destruct (fst (br_next (d_rbuf s))); try discriminate; contradiction.
+           ++ intros p m0 E. destruct (fst (br_next (d_rbuf s))); try discriminate; try contradiction.
+              destruct Hn as (E1 & _). inversion E; subst. repeat split; discriminate.
+           ++ intro E. destruct (fst (br_next (d_rbuf s))); try discriminate; try contradiction. destruct Hn; auto.
+        -- c_tac. rewrite Er. c_tac.
+           destruct (fst (br_next (d_rbuf s))); try contradiction; destruct Hn as (E1 & E2); rewrite ?E1, ?E2; c_tac.
+      * split; [|split; [|split; reflexivity]].
+        -- constructor; cbn; auto.
+           ++ destruct (fst (br_next (d_rbuf s))); try discriminate; contradiction.
+           ++ intros p m0 E. destruct (fst (br_next (d_rbuf s))); try discriminate; try contradiction.
+              destruct Hn as (E1 & _). inversion E; subst. repeat split; discriminate.
+           ++ intro E. destruct (fst (br_next (d_rbuf s))); try discriminate; try contradiction. destruct Hn; auto.
+        -- c_tac. rewrite Er. c_tac.
+           destruct (fst (br_next (d_rbuf s))); try contradiction; destruct Hn as (E1 & E2); rewrite ?E1, ?E2; c_tac.
 Qed.
 
-Lemma Inv_B_init : forall held ev0 sp, Inv_B (binit held ev0 sp).
+Lemma sstep_C_conserves : forall s x, SInv s ->
+  SInv (sstep_C s) /\ cnt x (sbody (sstep_C s)) = cnt x (sbody s)
+  /\ d_wready (sstep_C s) = d_wready s /\ d_conn (sstep_C s) = d_conn s.
+Proof.
+  intros s x HI. pose proof HI as [Hf Hr Hal Hq Hrb]. unfold sstep_C.
+  destruct (d_cpc s) eqn:Ec; split_match;
+    (split; [constructor; cbn; auto | split; [c_tac; rewrite ?Ec, ?Heql, ?Heqb; c_tac | split; reflexivity]]).
+Qed.
+
+Lemma sstep_X_conserves : forall s x, SInv s ->
+  SInv (sstep_X s) /\ cnt x (sbody (sstep_X s)) = cnt x (sbody s)
+  /\ d_wready (sstep_X s) = d_wready s /\ d_conn (sstep_X s) = d_conn s.
+Proof.
+  intros s x HI. pose proof HI as [Hf Hr Hal Hq Hrb]. unfold sstep_X.
+  destruct (d_xpc s) eqn:Ex; split_match;
+    (split; [constructor; cbn; auto | split; [c_tac; rewrite ?Ex, ?Heql, ?Heqb; c_tac | split; reflexivity]]).
+Qed.
+
+Lemma semit_conserves : forall s x, SInv s ->
+  SInv (semit s) /\ cnt x (sbody (semit s)) = cnt x (sbody s)
+  /\ d_wready (semit s) = d_wready s /\ d_conn (semit s) = d_conn s.
+Proof.
+  intros s x HI. pose proof HI as [Hf Hr Hal Hq Hrb]. unfold semit.
+  destruct (d_spont s) as [|c r] eqn:Es; [split; [exact HI|repeat split; reflexivity]|].
+  split; [constructor; cbn; auto|]. split; [c_tac; rewrite Es; c_tac|split; reflexivity].
+Qed.
+
+(** Which wrappers have their event queue once the application thread is at [p]. *)
+Definition ready_by (d : dir) (p : bapc) : bool :=
+  match p with
+  | BA_F1 | BA_F2 | BA_W1b | BA_W1c => false
+  | BA_W1 | BA_W2b | BA_W2c => match d with DIn => true | DOut => false end
+  | _ => true
+  end.
+
+Record Inv_B (s : bstate) : Prop := mkInvB {
+  gb_in : SInv (b_in s);
+  gb_out : SInv (b_out s);
+  gb_ready : forall d, ready_by d (b_apc s) = true -> d_wready (bside d s) = true
+}.
+
+Lemma bside_bupd_same : forall d f s, bside d (bupd d f s) = f (bside d s).
+Proof. intros [] f s; reflexivity. Qed.
+Lemma bside_bupd_other : forall d d' f s, d <> d' -> bside d' (bupd d f s) = bside d' s.
+Proof. intros [] [] f s H; try reflexivity; congruence. Qed.
+Lemma bapc_bupd : forall d f s, b_apc (bupd d f s) = b_apc s.
+Proof. intros [] f s; reflexivity. Qed.
+
+(** A step of one of the three threads of side [d]. *)
+Lemma side_step_conserves : forall (f : side -> side) d s x,
+  (forall y, SInv y -> SInv (f y) /\ cnt x (sbody (f y)) = cnt x (sbody y)
+                       /\ d_wready (f y) = d_wready y /\ d_conn (f y) = d_conn y) ->
+  Inv_B s ->
+  Inv_B (bupd d f s) /\ forall d', cnt x (ball d' (bupd d f s)) = cnt x (ball d' s).
+Proof.
+  intros f d s x Hf [Hi Ho Hr].
+  assert (Hd : SInv (bside d s)) by (destruct d; auto).
+  destruct (Hf _ Hd) as (H1 & H2 & H3 & H4).
+  split.
+  - constructor.
+    + destruct d; cbn; auto.
+    + destruct d; cbn; auto.
+    + intros d' Hrd. rewrite bapc_bupd in Hrd. specialize (Hr d' Hrd).
+      destruct d, d'; cbn in *; auto; congruence.
+  - intros d'. unfold ball. rewrite bapc_bupd, !cnt_app.
+    destruct d, d'; cbn [bside bupd b_in b_out]; auto; rewrite H2; reflexivity.
+Qed.
+
+Lemma bstep_A_conserves : forall cfg s x, legacy_ctor cfg = false -> Inv_B s ->
+  Inv_B (bstep_A cfg s) /\ forall d', cnt x (ball d' (bstep_A cfg s)) = cnt x (ball d' s).
+Proof.
+  intros cfg s x Hl HI. pose proof HI as [[Hf1 Hr1 Hal1 Hq1 Hrb1] [Hf2 Hr2 Hal2 Hq2 Hrb2] Hrd].
+  unfold bstep_A. rewrite Hl.
+  destruct (b_apc s) eqn:Ea; try destruct d; split_match;
+    (split;
+     [ constructor; [constructor|constructor|]; cbn; auto; try (intros; discriminate);
+       try (intros p0 m0 E0; destruct (Hq1 _ _ E0) as (? & ? & ?); repeat split; auto; fail);
+       try (intros p0 m0 E0; destruct (Hq2 _ _ E0) as (? & ? & ?); repeat split; auto; fail);
+       try (intros _; apply (Hrd DIn); reflexivity);
+       try (intros _; apply (Hrd DOut); reflexivity);
+       try (intros [] Hx; cbn in Hx |- *; try discriminate; auto;
+            first [apply (Hrd DIn); exact Hx | apply (Hrd DOut); exact Hx
+                  | apply (Hrd DIn); reflexivity | apply (Hrd DOut); reflexivity])
+     | intros []; unfold ahand; cbn [bside] in *; c_tac; rewrite ?Ea, ?Heql; unfold ahand; c_tac ]).
+Qed.
+
+Lemma bact_conserves : forall cfg a s x, legacy_ctor cfg = false -> Inv_B s ->
+  Inv_B (bact cfg a s) /\ forall d, cnt x (ball d (bact cfg a s)) = cnt x (ball d s).
+Proof.
+  intros cfg a s x Hl HI. destruct a; cbn [bact].
+  - apply bstep_A_conserves; auto.
+  - apply side_step_conserves; auto. intros; apply sstep_R_conserves; auto.
+  - apply side_step_conserves; auto. intros; apply sstep_C_conserves; auto.
+  - apply side_step_conserves; auto. intros; apply sstep_X_conserves; auto.
+  - destruct (quiet cfg && negb (bdone s)); [split; auto|].
+    apply side_step_conserves; auto. intros; apply semit_conserves; auto.
+  - split; auto.
+Qed.
+
+Lemma SInv_sinit : forall l held ev0 sp, SInv (sinit l held ev0 sp).
 Proof. intros. constructor; cbn; auto; try discriminate; try (intros; discriminate). Qed.
 
-Lemma Inv_B_run : forall l s0, Inv_B s0 -> Inv_B (brun (mkBC false) l s0).
+Lemma Inv_B_init : forall si so, SInv si -> SInv so -> d_wready si = false \/ True ->
+  Inv_B (binit2 si so).
+Proof. intros si so Hi Ho _. constructor; cbn; auto. intros []; discriminate. Qed.
+
+Lemma brun_conserves : forall cfg l s x, legacy_ctor cfg = false -> Inv_B s ->
+  Inv_B (brun cfg l s) /\ forall d, cnt x (ball d (brun cfg l s)) = cnt x (ball d s).
 Proof.
-  unfold brun. induction l as [|a l IH]; intros s0 H0; cbn; auto.
-  apply IH. apply (bstep_conserves (mkBC false) a s0 (mkMsg 0 0 false) eq_refl H0).
+  intros cfg l. unfold brun. induction l as [|a l IH]; intros s x Hl HI; cbn; auto.
+  destruct (bact_conserves cfg a s x Hl HI) as (H1 & E1).
+  destruct (IH _ x Hl H1) as (H2 & E2). split; auto. intro d. rewrite E2. apply E1.
 Qed.
 
-(** bridge_conservation (the part of bridge_relays_exactly_once_per_direction that holds):
-    under every schedule of application / reader / old connector I/O / wrapper I/O, the
-    reader thread survives and every message of the scenario is, with its multiplicity, in
-    exactly one place: relayed to the peer, handled by the old connector instead, held, or
-    still on its way.  Nothing is relayed twice, nothing vanishes. *)
+(** bridge_conservation (the part of bridge_relays_exactly_once_per_direction that holds under
+    EVERY schedule, for messages of every kind, in both directions): the reader threads
+    survive and every message of either side is, with its multiplicity, in exactly one place:
+    relayed to the peer, handled by the old connector instead, held, or still on its way.
+    Nothing is relayed twice, nothing vanishes. *)
 Lemma bridge_conservation :
-  forall held ev0 sp sched x,
-    let s := brun (mkBC false) sched (binit held ev0 sp) in
-    b_rpc s <> BR_Dead /\ cnt x (ball s) = cnt x (held ++ ev0 ++ msgs_of (concat sp)).
+  forall q li hi ei spi lo ho eo spo sched x d,
+    let s := brun (mkBC false q) sched (binit2 (sinit li hi ei spi) (sinit lo ho eo spo)) in
+    d_rpc (bside d s) <> BR_Dead
+    /\ cnt x (ball d s) = cnt x (match d with DIn => hi ++ ei ++ msgs_of (concat spi)
+                                          | DOut => ho ++ eo ++ msgs_of (concat spo) end).
 Proof.
-  intros held ev0 sp sched x.
-  assert (H : forall l s0, Inv_B s0 ->
-            Inv_B (brun (mkBC false) l s0) /\ cnt x (ball (brun (mkBC false) l s0)) = cnt x (ball s0)).
-  { induction l as [|a l IH]; intros s0 H0; cbn; auto.
-    destruct (bstep_conserves (mkBC false) a s0 x eq_refl H0) as (H1 & E1).
-    destruct (IH _ H1) as (H2 & E2). split; auto. unfold brun in *. rewrite E2. exact E1. }
-  destruct (H sched _ (Inv_B_init held ev0 sp)) as (HI & E). cbv zeta. split; [apply (ib_alive _ HI)|].
-  rewrite E. unfold ball, binit, bhand_c, bhand_x, bhand_a, bhand_r. cbn.
-  rewrite ?cnt_app, ?cnt_nil. lia.
-Qed.
-
-Lemma bridge_quiescent_accounts_for_all :
-  forall held ev0 sp sched x,
-    let s := brun (mkBC false) sched (binit held ev0 sp) in
-    bquiet s = true -> b_outq s = [] ->
-    cnt x (b_peer s ++ b_lost s ++ filter (fun m => negb (m_pkt m)) (b_deliv_o s) ++ b_lq s)
-    = cnt x (held ++ ev0 ++ msgs_of (concat sp)).
-Proof.
-  intros held ev0 sp sched x s Hq Ho.
-  destruct (bridge_conservation held ev0 sp sched x) as (_ & E). fold s in E. rewrite <- E.
-  unfold bquiet in Hq. unfold ball, bhand_c, bhand_x, bhand_a, bhand_r.
-  destruct (b_apc s); try discriminate. destruct (b_rpc s) eqn:Er; try discriminate.
-  destruct (b_cpc s); try discriminate. destruct (b_xpc s); try discriminate.
-  destruct (b_wire s); try discriminate. destruct (b_spont s); try discriminate.
-  destruct (b_ev_o s); try discriminate. destruct (b_ev_w s); try discriminate.
-  rewrite Ho. cbn.
-  assert (Eb : b_rbuf s = []).
-  { assert (HI : Inv_B s) by (apply Inv_B_run; apply Inv_B_init).
-    apply (ib_rbuf _ HI). exact Er. }
-  rewrite Eb. cbn. rewrite ?cnt_app, ?cnt_nil. lia.
+  intros q li hi ei spi lo ho eo spo sched x d s.
+  assert (H0 : Inv_B (binit2 (sinit li hi ei spi) (sinit lo ho eo spo)))
+    by (apply Inv_B_init; auto using SInv_sinit).
+  destruct (brun_conserves (mkBC false q) sched _ x eq_refl H0) as (HI & E). fold s in HI, E.
+  split.
+  - destruct HI as [Hi Ho _]. destruct d; cbn; [apply (ib_alive _ Hi)|apply (ib_alive _ Ho)].
+  - rewrite E. destruct d; unfold ball, sbody, shand_c, shand_x, shand_r, ahand; cbn;
+      rewrite ?cnt_app, ?cnt_nil; lia.
 Qed.
 
 (** The full statement, and what refutes it. *)
 Definition bridge_relays_exactly_once_per_direction_statement : Prop :=
-  forall held ev0 sp sched,
-    let s := brun (mkBC false) sched (binit held ev0 sp) in
-    bquiet s = true -> b_peer s = held ++ ev0 ++ msgs_of (concat sp).
+  forall li hi ei spi lo ho eo spo sched,
+    let s := brun (mkBC false false) sched (binit2 (sinit li hi ei spi) (sinit lo ho eo spo)) in
+    bquiet s = true ->
+    d_peer (b_in s) = hi ++ ei ++ msgs_of (concat spi)
+    /\ d_peer (b_out s) = ho ++ eo ++ msgs_of (concat spo).
 
 Definition p1 := mkMsg 0 1 true.
 Definition p2 := mkMsg 0 2 true.
@@ -875,56 +1005,153 @@ Definition p2 := mkMsg 0 2 true.
 (** Bridge.__init__ attaches the wrapper, then flushes what was held: a packet arriving in
     between overtakes the held one. *)
 Definition br_sched_order : list baction :=
-  repeat BA 8 ++ [BEmit] ++ repeat BR 7 ++ repeat BX 7 ++ repeat BA 12.
+  repeat BA 8 ++ [BEmit DIn] ++ repeat (BR DIn) 7 ++ repeat (BX DIn) 7 ++ repeat BA 20.
 
 (** An event still in the old connector's queue is processed by the old connector's I/O
     thread after the unlock: it is handed to the old connector's packet handler, never
     relayed. *)
-Definition br_sched_loss : list baction := repeat BA 20 ++ repeat BC 9.
+Definition br_sched_loss : list baction := repeat BA 24 ++ repeat (BC DIn) 10.
 
 Lemma bridge_refuted :
-  (exists held ev0 sp sched,
-     let s := brun (mkBC false) sched (binit held ev0 sp) in
-     bquiet s = true /\ b_peer s = [p2; p1] /\ held ++ ev0 ++ msgs_of (concat sp) = [p1; p2])
+  (let s := brun (mkBC false false) br_sched_order (binit [p1] [] [[Some p2]]) in
+   bquiet s = true /\ d_peer (b_in s) = [p2; p1])
   /\
-  (exists held ev0 sp sched,
-     let s := brun (mkBC false) sched (binit held ev0 sp) in
-     bquiet s = true /\ b_peer s = [] /\ b_lost s = [p1] /\ held ++ ev0 ++ msgs_of (concat sp) = [p1]).
-Proof.
-  split.
-  - exists [p1], [], [[Some p2]], br_sched_order. vm_compute. repeat split; reflexivity.
-  - exists [], [p1], [], br_sched_loss. vm_compute. repeat split; reflexivity.
-Qed.
+  (let s := brun (mkBC false false) br_sched_loss (binit [] [p1] []) in
+   bquiet s = true /\ d_peer (b_in s) = [] /\ d_lost (b_in s) = [p1]).
+Proof. split; vm_compute; repeat split; reflexivity. Qed.
 
 Lemma bridge_statement_refuted : ~ bridge_relays_exactly_once_per_direction_statement.
 Proof.
-  intro H. specialize (H [p1] [] [[Some p2]] br_sched_order). cbv zeta in H.
-  assert (E : bquiet (brun (mkBC false) br_sched_order (binit [p1] [] [[Some p2]])) = true) by (vm_compute; reflexivity).
-  specialize (H E).
-  assert (X : list_eqb msg_eqb (b_peer (brun (mkBC false) br_sched_order (binit [p1] [] [[Some p2]])))
+  intro H. specialize (H true [p1] [] [[Some p2]] false [] [] [] br_sched_order). cbv zeta in H.
+  assert (E : bquiet (brun (mkBC false false) br_sched_order (binit [p1] [] [[Some p2]])) = true) by (vm_compute; reflexivity).
+  destruct (H E) as (H1 & _).
+  assert (X : list_eqb msg_eqb (d_peer (b_in (brun (mkBC false false) br_sched_order (binit [p1] [] [[Some p2]]))))
                        ([p1] ++ [] ++ msgs_of (concat [[Some p2]])) = false) by (vm_compute; reflexivity).
-  rewrite H in X. vm_compute in X. discriminate X.
+  unfold binit in X. rewrite H1 in X. vm_compute in X. discriminate X.
 Qed.
 
 (** Connector.__init__ as found: the reader thread dies on the half-built wrapper. *)
 Lemma bridge_legacy_ctor_refuted :
   exists sp sched,
-    b_rpc (brun (mkBC true) sched (binit [] [] sp)) = BR_Dead.
+    d_rpc (b_in (brun (mkBC true false) sched (binit [] [] sp))) = BR_Dead.
 Proof.
-  exists [[Some p1]], (repeat BA 3 ++ [BEmit] ++ repeat BR 7). vm_compute. reflexivity.
+  exists [[Some p1]], (repeat BA 3 ++ [BEmit DIn] ++ repeat (BR DIn) 7). vm_compute. reflexivity.
 Qed.
 
-(** When nothing is held, nothing is pending and the device only emits after __init__ has
-    returned, the wrapper path alone is used; that path is FIFO (checked by the oracle on the
-    implementation; see design/C05.md for why it is not a theorem here). *)
+(** ---- a bridge created on a quiet link relays everything, in order --------------------------- *)
 
-Definition nv5_sched : list action :=
-  [Emit; Step TR; Step TR; Step TR; Step TR; Step TR; Step TR; Step TC; Step TC; Step TC; Step TC; Step TC;
-   Step TA; Step TA; Emit] ++ concat (repeat [Step TA; Step TR; Step TC] 20).
+Definition stage_conn (d : dir) (p : bapc) : bool :=
+  match p with
+  | BA_F1 | BA_F2 | BA_W1b | BA_W1c | BA_W1 => false
+  | BA_W2b | BA_W2c | BA_W2 => match d with DIn => true | DOut => false end
+  | _ => true
+  end.
 
-Lemma nonvacuous5 :
-  let cfg := mkConfig true false 3 false false false false in
-  lock_wf true [OUnlock] /\
-  let s := run cfg nv5_sched (init cfg [OUnlock] [[Some (mkMsg 0 1 true)]; [Some (mkMsg 0 2 true)]] true) in
-  dispatched s = [mkMsg 0 1 true; mkMsg 0 2 true] /\ locked_q s = [] /\ locked s = false.
-Proof. cbv zeta. split; [exact I|]. vm_compute. repeat split; reflexivity. Qed.
+(** Once the application thread is past the unlock of side [d]. *)
+Definition past_unlock (d : dir) (p : bapc) : bool :=
+  match d, p with
+  | DIn, (BA_L1 DOut | BA_L2 DOut | BU_1 DOut | BU_2 DOut | BU_3 DOut | BU_R1 DOut _ | BU_R2 DOut _
+         | BU_6 DOut | BU_5 DOut) => true
+  | _, _ => false
+  end.
+
+Definition drained_pc (d : dir) (p : bapc) : bool :=
+  match p with BU_6 d' | BU_5 d' => dir_eqb d d' | _ => false end.
+
+(** While Bridge.__init__ runs on a quiet link, nothing but the application thread moves. *)
+Record QA (held : list msg) (sp : list chunk) (d : dir) (s : bstate) : Prop := mkQA {
+  qa_idle : d_wire (bside d s) = [] /\ d_spont (bside d s) = sp /\ d_rpc (bside d s) = BR_Read
+            /\ d_rbuf (bside d s) = [] /\ d_ev_o (bside d s) = [] /\ d_cpc (bside d s) = CC_Get
+            /\ d_ev_w (bside d s) = [] /\ d_xpc (bside d s) = X_Get /\ d_filt (bside d s) = None;
+  qa_conn : stage_conn d (b_apc s) = true -> d_conn (bside d s) = true;
+  qa_ready : ready_by d (b_apc s) = true -> d_wready (bside d s) = true;
+  qa_eq : d_peer (bside d s) ++ ahand d (b_apc s) ++ d_lq (bside d s) = held;
+  qa_unl : d_locked (bside d s) = false -> d_lq (bside d s) = [];
+  qa_dr : drained_pc d (b_apc s) = true -> d_lq (bside d s) = [];
+  qa_b5 : (exists d', b_apc s = BU_5 d' /\ dir_eqb d d' = true) -> d_locked (bside d s) = false;
+  qa_past : past_unlock d (b_apc s) = true -> d_locked (bside d s) = false
+}.
+
+(** Afterwards everything goes through the wrapper, which is FIFO. *)
+Record QB (held : list msg) (sp : list chunk) (x : side) : Prop := mkQB {
+  qb_st : d_conn x = true /\ d_wready x = true /\ d_filt x = None /\ d_ev_o x = [] /\ d_cpc x = CC_Get;
+  qb_rp : forall p m, d_rpc x = BR_P p m -> p <> Q6 /\ p <> Q7 /\ p <> Q8b false;
+  qb_rb : d_rpc x = BR_Read -> d_rbuf x = [];
+  qb_al : d_rpc x <> BR_Dead;
+  qb_eq : d_peer x ++ shand_x x ++ d_ev_w x ++ shand_r x ++ msgs_of (d_rbuf x)
+          ++ msgs_of (concat (d_wire x)) ++ msgs_of (concat (d_spont x)) = held ++ msgs_of (concat sp)
+}.
+
+Definition QInv (hi ho : list msg) (spi spo : list chunk) (s : bstate) : Prop :=
+  if bdone s then QB hi spi (b_in s) /\ QB ho spo (b_out s)
+  else QA hi spi DIn s /\ QA ho spo DOut s.
+
+Lemma QB_R : forall held sp x, QB held sp x -> QB held sp (sstep_R x).
+Proof.
+  intros held sp x HQ. pose proof HQ as [(Hc & Hw & Hf & He & Hp) Hrp Hrb Hal Heq]. unfold sstep_R.
+  destruct (d_rpc x) as [|p m|] eqn:Er; [| |contradiction].
+  - destruct (d_wire x) as [|c w] eqn:Ew; [exact HQ|].
+    pose proof (br_next_spec c) as Hn. pose proof (Hrb eq_refl) as Eb.
+    constructor; cbn; auto.
+    + intros p m E. destruct (fst (br_next c)); try discriminate; try contradiction.
+      destruct Hn as (E1 & _). inversion E; subst. repeat split; discriminate.
+    + intro E. destruct (fst (br_next c)); try discriminate; try contradiction. destruct Hn; auto.
+    + destruct (fst (br_next c)); try discriminate; contradiction.
+    + unfold shand_x, shand_r in *. cbn. rewrite ?Er, ?Ew, ?Eb in Heq. cbn in Heq. rewrite msgs_of_app in Heq.
+      rewrite <- Heq.
+      destruct (fst (br_next c)); try contradiction; destruct Hn as (E1 & E2); rewrite ?E1, ?E2; cbn;
+        rewrite <- ?app_assoc; reflexivity.
+  - destruct (Hrp _ _ eq_refl) as (H6 & H7 & H8).
+    pose proof (br_next_spec (d_rbuf x)) as Hn.
+    destruct p; try congruence; rewrite ?Hf, ?Hc.
+    + constructor; cbn; auto; try discriminate.
+      * intros p m0 E; inversion E; subst; repeat split; discriminate.
+      * unfold shand_x, shand_r in *; cbn; rewrite Er in Heq; exact Heq.
+    + constructor; cbn; auto; try discriminate.
+      * intros p m0 E; inversion E; subst; repeat split; discriminate.
+      * unfold shand_x, shand_r in *; cbn; rewrite Er in Heq; exact Heq.
+    + constructor; cbn; auto; try discriminate.
+      * intros p m0 E; inversion E; subst; repeat split; discriminate.
+      * unfold shand_x, shand_r in *; cbn; rewrite Er in Heq; exact Heq.
+    + constructor; cbn; auto; try discriminate.
+      * intros p m0 E; inversion E; subst; repeat split; discriminate.
+      * unfold shand_x, shand_r in *; cbn; rewrite Er in Heq; exact Heq.
+    + destruct to_wrapper; [|congruence]. rewrite Hw.
+      constructor; cbn; auto.
+      * intros p m0 E. destruct (fst (br_next (d_rbuf x))); try discriminate; try contradiction.
+        destruct Hn as (E1 & _). inversion E; subst. repeat split; discriminate.
+      * intro E. destruct (fst (br_next (d_rbuf x))); try discriminate; try contradiction. destruct Hn; auto.
+      * destruct (fst (br_next (d_rbuf x))); try discriminate; contradiction.
+      * unfold shand_x, shand_r in *. cbn. rewrite Er in Heq. rewrite <- Heq.
+        destruct (fst (br_next (d_rbuf x))); try contradiction; destruct Hn as (E1 & E2); rewrite ?E1, ?E2; cbn;
+          rewrite <- ?app_assoc; reflexivity.
+Qed.
+
+Lemma QB_C : forall held sp x, QB held sp x -> sstep_C x = x.
+Proof. intros held sp x [(Hc & Hw & Hf & He & Hp) _ _ _ _]. unfold sstep_C. rewrite Hp, He. reflexivity. Qed.
+
+Lemma QB_X : forall held sp x, QB held sp x -> QB held sp (sstep_X x).
+Proof.
+  intros held sp x HQ. pose proof HQ as [Hst Hrp Hrb Hal Heq]. unfold sstep_X.
+  destruct (d_xpc x) eqn:Ex; split_match; try exact HQ; constructor; cbn; auto;
+    unfold shand_x, shand_r in *; cbn; rewrite ?Ex, ?Heql in Heq; cbn in Heq;
+    first [exact Heq | rewrite <- Heq; rewrite <- ?app_assoc; reflexivity].
+Qed.
+
+Lemma QB_emit : forall held sp x, QB held sp x -> QB held sp (semit x).
+Proof.
+  intros held sp x HQ. pose proof HQ as [Hst Hrp Hrb Hal Heq]. unfold semit.
+  destruct (d_spont x) as [|c r] eqn:Es; [exact HQ|].
+  constructor; cbn; auto. unfold shand_x, shand_r in *. cbn.
+  rewrite ?Es in Heq. rewrite <- Heq. cbn [concat]. rewrite concat_app, !msgs_of_app. cbn. rewrite ?app_nil_r, <- ?app_assoc. reflexivity.
+Qed.
+
+Lemma bupd_id : forall d f s, f (bside d s) = bside d s -> bupd d f s = s.
+Proof. intros [] f [si so p] E; cbn in *; rewrite E; reflexivity. Qed.
+
+Lemma QA_idle_R : forall h sp d s, QA h sp d s -> sstep_R (bside d s) = bside d s.
+Proof. intros h sp d s [(E1 & _ & E3 & _) _ _ _ _ _ _ _]. unfold sstep_R. rewrite E3, E1. reflexivity. Qed.
+Lemma QA_idle_C : forall h sp d s, QA h sp d s -> sstep_C (bside d s) = bside d s.
+Proof. intros h sp d s [(_ & _ & _ & _ & E5 & E6 & _) _ _ _ _ _ _ _]. unfold sstep_C. rewrite E6, E5. reflexivity. Qed.
+Lemma QA_idle_X : forall h sp d s, QA h sp d s -> sstep_X (bside d s) = bside d s.
+Proof. intros h sp d s [(_ & _ & _ & _ & _ & _ & E7 & E8 & _) _ _ _ _ _ _ _]. unfold sstep_X. rewrite E8, E7. reflexivity. Qed.
